@@ -60,6 +60,7 @@ type seqEnum struct {
 	r        *core.Rand
 	kind     string
 	deepOnly map[int]bool // alphabet indices that are only recursed into at depth < 4 (keyword-content strings)
+	viable   bool         // set by visit while it judges a sequence the recognizer has not given up on
 }
 
 func (e *seqEnum) judge(seq []int, refAccept bool, reason string) {
@@ -99,6 +100,31 @@ func (e *seqEnum) judge(seq []int, refAccept bool, reason string) {
 			x.Violate("impl-rejects/ref-accepts("+templateOf(err.Error())+")", src+" -> "+err.Error(), "derivable from the grammar")
 		default:
 			x.Violate("impl-accepts/ref-rejects("+reason+")", src+" -> parsed", "not derivable: "+reason)
+		}
+	})
+	if !e.viable || len(seq) == 0 {
+		return
+	}
+	// ignored tokens never change the verdict: the same sequence of a viable prefix with a comment after every token, the
+	// last one ended by the end of the input (after seeded change C06-wave10-A: a comment read while looking for an optional
+	// part overwrote the parser's note of what it had consumed, so `extend scalar D # c` was accepted)
+	sb.Reset()
+	for i, a := range seq {
+		if i > 0 {
+			sb.WriteString("\n")
+		}
+		sb.WriteString(e.alpha[a].text)
+		sb.WriteString(" # c")
+	}
+	src2 := sb.String()
+	x.DoLite(e.kind, "src", src2, func() {
+		err := e.parse(src2)
+		x.Count("seq_commented_renderings")
+		switch {
+		case refAccept && err != nil:
+			x.Violate("comments-change-verdict:impl-rejects/ref-accepts("+templateOf(err.Error())+")", src2+" -> "+err.Error(), "derivable from the grammar")
+		case !refAccept && err == nil:
+			x.Violate("comments-change-verdict:impl-accepts/ref-rejects("+reason+")", src2+" -> parsed", "not derivable: "+reason)
 		}
 	})
 }
@@ -142,7 +168,9 @@ func (e *seqEnum) visit(seq []int, parent, st *ref.State, recurse bool) {
 		if !acc {
 			reason = "end-of-input in " + st.Expecting()
 		}
+		e.viable = true
 		e.judge(seq, acc, reason)
+		e.viable = false
 	} else {
 		deadReason = "not viable"
 		if parent != nil {
@@ -318,6 +346,8 @@ var brokenLexemes = []string{`"\u+041"`, `"\u-041"`, `"\u 041"`, `"\u0x41"`, `"\
 	`01`, `-01`, `00`, `1.`, `.5`, `1e`, `1e+`, `1e-+5`, `1e+-5`, `1E--1`, `1.e1`, `1..2`, `+1`, `0x10`, `1_000`, `-`, `1.0.0`, `0e`, `1e1.5`, `-.5`, `1e5e5`,
 	`"a\nb`, "\"a\tb\u0001\""}
 
+var strayChars = []string{"\u00a0", "\u2028", "\u2029", "\u0085", "\f", "\v", "\u200b", "\u3000", "\u2003", "\u00e9", "\u0663", "\u00aa", "~", "?", "%", "^", "\\", ";", "<", "'", "`", "*", "/", "\u2026", "\uff01", "\uff5b", "\x00", "\x7f", "..", "."}
+
 // mutateBrokenLexeme replaces one value token (or a name after ':') by a broken lexeme.
 func mutateBrokenLexeme(r *core.Rand, toks []model.Tok) []model.Tok {
 	var idx []int
@@ -331,8 +361,12 @@ func mutateBrokenLexeme(r *core.Rand, toks []model.Tok) []model.Tok {
 			}
 		}
 	}
-	if len(idx) == 0 {
-		return mutateTokens(r, toks)
+	if len(idx) == 0 || r.Chance(1, 3) {
+		// a character that is no token and not ignored either, as a token of its own between two others (look-alikes of
+		// white space and of punctuators, letters outside ASCII)
+		i := r.Intn(len(toks) + 1)
+		out := append(append(append([]model.Tok{}, toks[:i]...), model.Tok{Kind: model.TPunct, Text: strayChars[r.Intn(len(strayChars))]}), toks[i:]...)
+		return out
 	}
 	out := append([]model.Tok{}, toks...)
 	out[idx[r.Intn(len(idx))]] = model.Tok{Kind: model.TString, Text: brokenLexemes[r.Intn(len(brokenLexemes))]}
@@ -488,7 +522,13 @@ func gramJudgeText(x *core.Ctx, g *ref.Grammar, src string, parse func(string) (
 	if rr.Failed {
 		x.Count("lexically_invalid")
 		if err == nil {
-			x.Count("skipped:lexer-disagreement(C03)")
+			if strings.Contains(src, `""""`) {
+				// a block string closed by a run of more than three quotes: the library's deliberate reading (finding F-C03-03, judged by C03)
+				x.Count("skipped:quote-run(F-C03-03)")
+				return nil, false
+			}
+			// a text the lexical grammar admits no token sequence for is not derivable, whatever the lexer made of it
+			x.Violate("impl-accepts/ref-rejects(lexical:"+rr.Reason+")", "parsed", "no token at character "+fmt.Sprint(rr.FailAt)+": "+rr.Reason)
 		}
 		return nil, false
 	}
